@@ -12,7 +12,9 @@ EXPLANATION = (
     "in both loops socket.timeout becomes Pyro's TimeoutError and socket.error becomes ConnectionClosedError unless the errno "
     "is in ERRNO_RETRIES, in which case the loop continues; in send_data the unsent remainder is sliced off right after a "
     "successful send, by the count that send returned, and the loop runs while data remains; ERRNO_RETRIES contains only the "
-    "retryable errno family; the library's own errors are not OSErrors; SocketConnection.recv/send delegate exactly. Not decided: exact bytes/order under scripts of partial reads, timing, MSG_WAITALL semantics."
+    "retryable errno family; the library's own errors are not OSErrors; SocketConnection.recv/send delegate exactly."
+    'Also decided: every ConnectionClosedError of receive_data carries partialData; the buffer is created once; a short MSG_WAITALL read is handed over to the manual loop and not repeated; no fall-through; sendall is not retried; errno is read without indexing args; only ConnectionClosedError handlers read partialData. '
+    "Not decided: exact bytes/order under scripts of partial reads, timing, MSG_WAITALL semantics."
 )
 
 RETRYABLE = {"EINTR", "EAGAIN", "EWOULDBLOCK", "EINPROGRESS", "WSAEINTR", "WSAEWOULDBLOCK", "WSAEINPROGRESS"}
@@ -116,6 +118,13 @@ def run(ctx, R, tier):
                                 "a socket error is swallowed")
     if n_h < 7:
         raise AnalysisError("socketutil: fewer socket.timeout/socket.error handlers than expected (%d)" % n_h)
+    # classifying the error must not itself fail: the errno is read without indexing the exception's args (an OSError() without arguments has none)
+    for f in (rx, tx):
+        bad = [x for t in walk_no_nested(f.node) if isinstance(t, ast.Try) for h in t.handlers if h.name for st in h.body for x in walk_no_nested(st)
+               if isinstance(x, ast.Subscript) and isinstance(x.value, ast.Attribute) and x.value.attr == "args" and isinstance(x.value.value, ast.Name) and x.value.value.id == h.name]
+        R.check(not bad, "C17-R2", "%s|errno-read-cannot-fail" % f.name, "no socket.error handler indexes the exception's args", f.loc(bad[0]) if bad else f.loc(),
+                "`%s` is evaluated in the handler (also as the eager default of getattr): for an OSError without arguments the handler raises IndexError instead of "
+                "ConnectionClosedError" % (unparse(bad[0]) if bad else ""))
     # every ConnectionClosedError raised by receive_data carries the bytes received so far
     buffers = {unparse(c.func.value) for c, _ in ctx.cg.calls_of(rx) if isinstance(c.func, ast.Attribute) and c.func.attr == "extend"}
     cc_raises = []
@@ -254,6 +263,24 @@ def run(ctx, R, tier):
     bad = sorted(x for x in names if not (x.startswith("errno.") and x[6:] in RETRYABLE))
     R.check(not bad and len(names) >= 3, "C17-R4", "ERRNO_RETRIES|retryable-family", "only EINTR/EAGAIN/EWOULDBLOCK/EINPROGRESS (and their WSA twins) are retried", m.relpath,
             "non-retryable errno values are retried forever: %s" % bad)
+
+    # only the connection-closed error carries partialData: a handler that reads it must not catch anything wider
+    n_pd = 0
+    for g in p.functions.values():
+        for t in [x for x in walk_no_nested(g.node) if isinstance(x, ast.Try)]:
+            for h in t.handlers:
+                if not h.name:
+                    continue
+                reads = [x for st in h.body for x in walk_no_nested(st) if isinstance(x, ast.Attribute) and x.attr == "partialData" and isinstance(x.ctx, ast.Load)
+                         and isinstance(x.value, ast.Name) and x.value.id == h.name]
+                if not reads:
+                    continue
+                n_pd += 1
+                classes = [es.class_of_expr(x, g) for x in (h.type.elts if isinstance(h.type, ast.Tuple) else [h.type])] if h.type is not None else [None]
+                ok = all(c and es.is_sub(c, "Pyro5.errors.ConnectionClosedError") for c in classes)
+                R.check(ok, "C17-R2", "%s|partialData-read-only-from-ConnectionClosedError" % g.qualname.split(".", 1)[1], "the handler that reads .partialData catches only ConnectionClosedError",
+                        g.loc(h), "the handler catches %s but reads .partialData, which only ConnectionClosedError carries: a timeout surfaces as AttributeError" % classes)
+    R.note("handlers reading .partialData: %d" % n_pd)
 
 
 def _raised_class(ctx, f, cfg, r):
